@@ -178,6 +178,11 @@ def extension(v, base, lid='xt', flags=()):
            'extends': {'id': base['id'], 'version': base['version'], 'url': u('baseurl')},
            'requires': [{'id': 'dep', 'version': '2'}],
            'entries': [xe1, ne], 'synsets': [xss1, xss4, nss]}
+    # the extension's own frames: used by a new sense on an *external* entry and by a sense of a new entry
+    lex['frames'] = [{'id': P + 'fr1', 'subcategorizationFrame': u('ext frame')},
+                     {'id': P + 'fr2', 'subcategorizationFrame': u('ext frame')}]
+    xe1['senses'][2]['subcat'] = [P + 'fr1', P + 'fr2']
+    ne['senses'][0]['subcat'] = [P + 'fr2']
     return lex
 
 
@@ -442,6 +447,8 @@ TEXT_PAYLOADS = [
     'dou  ble', '100%', 'é', '\U0001F600x', 'y' * 5000, '', 'a\rb',
     'long ' + 'z' * 20000 + ' tail', 'é' * 6000,      # longer than expat's 8 kB text buffer
 ]
+# written under xml:space="preserve" (no carriage return: a literal one is a line feed to every XML parser)
+PRESERVE_PAYLOADS = ['a\tb', 'a\nb', 'a\u00a0b', ' lead', 'trail ', 'dou  ble', 'l1\n  l2\n']
 ID_PAYLOADS = ['x.y-z_1', 'ïd-é', '日本', 'A', 'a']
 
 _TEXT_KINDS = {'tag', 'pron', 'definition', 'ilidef', 'example'}
